@@ -208,6 +208,8 @@ func c17Systematic() []ref.Expr {
 			&ref.Lit{V: ref.Float(1500), Src: "1.5e3"}, &ref.Lit{V: ref.Float(1e21), Src: "1e21"}, &ref.Lit{V: ref.Float(1e-7), Src: "1e-7"}, &ref.Lit{V: ref.Float(2)},
 			&ref.Lit{V: ref.Float(-3)}, &ref.Lit{V: ref.Float(6.02e23), Src: "6.02e23"}, &ref.Lit{V: ref.Int(31), Src: "0x1F"},
 			&ref.Lit{V: ref.Str("a'b\\c\nd\re\tf\bg\fh\"i")}, &ref.Lit{V: ref.Str("é"), Src: `'é'`}, &ref.Lit{V: ref.Str("😀")},
+			&ref.Lit{V: ref.Str("}")}, &ref.Lit{V: ref.Str("{")}, &ref.Lit{V: ref.Str("a{b}c")}, &ref.Lit{V: ref.Str("{{x}}")}, &ref.Lit{V: ref.Str("/}")}, &ref.Lit{V: ref.Str("{/msg}")},
+			&ref.MapLit{Keys: []string{"}", "{k}"}, Vals: []ref.Expr{one, &ref.Lit{V: ref.Str("}")}}},
 			&ref.Lit{V: ref.Str("\u00e9\tb")}, &ref.Lit{V: ref.Str("caf\u00e9\n")}, &ref.Lit{V: ref.Str("\u4e2d\n\u6587")}, &ref.Lit{V: ref.Str("\U0001F600\\x")}, &ref.Lit{V: ref.Str("\u00fc'\u00e9\n\u00ff\u0100")},
 			&ref.MapLit{Keys: []string{"caf\u00e9\n", "\u4e2d\t", "\u00ff\\"}, Vals: []ref.Expr{one, two, x}},
 			&ref.MapLit{Keys: []string{"a'b", "c\\d", "e\nf", "g\"h", "zz", "aa"}, Vals: []ref.Expr{one, two, x, y, z, &ref.ListLit{}}},
